@@ -21,7 +21,7 @@ import (
 	f1testing "github.com/form3tech-oss/f1/v2/pkg/f1/testing"
 )
 
-var keyAlpha = []string{"a", "b", "id", "zone", "Zone", "A"} // incl. keys that differ only in case
+var keyAlpha = []string{"a", "b", "id", "zone", "Zone", "A", "id1", "a_b"} // incl. keys that differ only in case, and a key that is another's prefix followed by a digit / an underscore
 
 // mix: how one run behaves
 type mix struct {
